@@ -264,8 +264,11 @@ Theorem C15_share_iff_agree_refuted :
 Proof. exact share_iff_agree_refuted_l. Qed.
 Print Assumptions C15_share_iff_agree_refuted.
 
-(* from items back to features: it_kb is the index of the hash class.  Hash classes are classes of the CANONICAL FORM
-   of the group options (+ frameworks), up to the atoms CPython hashes alike (hnorm: "" ~ 0 ~ False, -1 ~ -2).  Equal options are always in one class ... *)
+(* from items back to features: it_kb is the index of the class of features with the same hash INTEGER (the code groups by
+   hash((options, frameworks, type)), not by equality).  Model/Grouping.v says which (options, frameworks) get one integer:
+   those with == canonical forms (canon_eqb), and those whose canonical forms differ only in atoms CPython hashes alike
+   (hnorm: -1 ~ -2, "" ~ 0 ~ False, z ~ z mod 2^61-1, Enum member ~ its name; everything else assumed collision-free and
+   tested by the correspondence).  Equal options are always in one class ... *)
 Theorem C15_equal_options_same_class : forall a b,
   wfv (VDict (g_group a)) -> wfv (VDict (g_group b)) -> nofs (VDict (g_group a)) -> nofs (VDict (g_group b)) ->
   hash_key (VDict (g_group a)) <> None -> hash_key (VDict (g_group b)) <> None ->
@@ -282,21 +285,48 @@ Theorem C15_base_class_iff : forall fs a b,
 Proof. exact base_class_iff_l. Qed.
 Print Assumptions C15_base_class_iff.
 
-(* FULL STATEMENT: one class <-> equal options:  forall a b, base_eqb a b = true <-> opts_agree a b = true  (hashable a b).
-   The direction -> is REFUTED on the faithful model (known finding C15-grouping-conflates-list-tuple): group options
-   {"c": [1, 2]} and {"c": (1, 2)} are unequal, have the same canonical form, and the two features are computed in one
-   step.  The direction <- is C15_equal_options_same_class. *)
-(* the same with a genuine collision of Python's hash: hash("") = hash(0) (also hash(-1) = hash(-2)) *)
+(* FULL STATEMENT: the code groups by EQUALITY of (group options, frameworks) -- group_features_eq is the same two passes
+   over classes of opts_agree (Spec/GroupingSpec.v):
+     forall fs, hashable_request fs -> group_features fs = group_features_eq fs.
+   REFUTED on the faithful model in two disjoint ways (one root cause: the dictionary is keyed by the hash integer):
+     known finding C15-grouping-conflates-list-tuple  (domain kf_canon_conflation): unequal options, == canonical forms;
+     known finding C15-grouping-hash-collision        (domain kf_hash_collision):   different canonical forms, one integer.
+   PROVED outside the union of the two domains (kf_hash_conflation; C15_conflation_domains: it is exactly the union). *)
+Theorem C15_grouping_by_equality_partial : forall fs, hashable_request fs -> kf_hash_conflation fs = false ->
+  group_features fs = group_features_eq fs.
+Proof. exact grouping_by_equality_partial_l. Qed.
+Print Assumptions C15_grouping_by_equality_partial.
+
+Theorem C15_conflation_domains : forall fs, hashable_request fs ->
+  kf_hash_conflation fs = kf_canon_conflation fs || kf_hash_collision fs.
+Proof. exact kf_split_l. Qed.
+Print Assumptions C15_conflation_domains.
+
+(* {"c": [1, 2]} and {"c": (1, 2)}: unequal, one canonical form, one step *)
+Theorem C15_hash_class_refuted :
+  opts_agree hc_a hc_b = false /\ canon_eqb hc_a hc_b = true /\ base_eqb hc_a hc_b = true /\
+  kf_canon_conflation [hc_a; hc_b] = true /\ kf_hash_collision [hc_a; hc_b] = false /\ kf_hash_conflation [hc_a; hc_b] = true /\
+  group_features [hc_a; hc_b] = [[0; 1]]%nat /\ group_features_eq [hc_a; hc_b] = [[0]; [1]]%nat.
+Proof. exact hash_conflation_refuted_l. Qed.
+Print Assumptions C15_hash_class_refuted.
+
+(* {"c": -1} and {"c": -2}: unequal, different canonical forms, hash(-1) = hash(-2) = -2, one step *)
 Theorem C15_hash_collision_refuted :
-  opts_agree hc_c hc_d = false /\ base_eqb hc_c hc_d = true /\ group_features [hc_c; hc_d] = [[0; 1]]%nat.
+  opts_agree hc_e hc_f = false /\ canon_eqb hc_e hc_f = false /\ base_eqb hc_e hc_f = true /\
+  kf_hash_collision [hc_e; hc_f] = true /\ kf_canon_conflation [hc_e; hc_f] = false /\ kf_hash_conflation [hc_e; hc_f] = true /\
+  group_features [hc_e; hc_f] = [[0; 1]]%nat /\ group_features_eq [hc_e; hc_f] = [[0]; [1]]%nat.
 Proof. exact hash_collision_refuted_l. Qed.
 Print Assumptions C15_hash_collision_refuted.
 
-Theorem C15_hash_class_refuted :
-  opts_agree hc_a hc_b = false /\ base_eqb hc_a hc_b = true /\ kf_hash_conflation [hc_a; hc_b] = true /\
-  group_features [hc_a; hc_b] = [[0; 1]]%nat.
-Proof. exact hash_conflation_refuted_l. Qed.
-Print Assumptions C15_hash_class_refuted.
+(* the same for every other collision of the modelled hash ("" / 0, 2^61-1 / 0, Enum member / its name, inside tuples,
+   lists, nested dicts, sets): collide, not equal, one step in the faithful model, two under equality *)
+Theorem C15_hash_collision_pairs_refuted :
+  forallb (fun p => let a := gf1 0 (fst p) in let b := gf1 1 (snd p) in
+                    base_eqb a b && negb (canon_eqb a b) && negb (opts_agree a b)
+                    && all2 (all2 Nat.eqb) (group_features [a; b]) [[0; 1]]%nat
+                    && all2 (all2 Nat.eqb) (group_features_eq [a; b]) [[0]; [1]]%nat) collide_pairs = true.
+Proof. exact hash_collision_pairs_l. Qed.
+Print Assumptions C15_hash_collision_pairs_refuted.
 
 (* context options never separate (or join) anything: changing the context of any features leaves the grouping as is *)
 Theorem C15_context_never_splits : forall fs fs', Forall2 same_but_context fs fs' -> group_features fs = group_features fs'.
